@@ -5,6 +5,7 @@ import (
 	"go/token"
 	"go/types"
 	"sort"
+	"strings"
 
 	"verif/internal/core"
 	"verif/internal/flow"
@@ -50,7 +51,7 @@ func c19isRunLike(g *flow.Func, fd *ast.FuncDecl) bool {
 		switch {
 		case c19isString(v.Type()):
 			s++
-		case c19isBool(v.Type()):
+		case c19isBool(v.Type()) || c19isEnum(v.Type()):
 			b++
 		case c19targetFields(v.Type()) != nil:
 			s++
@@ -64,6 +65,16 @@ func c19isRunLike(g *flow.Func, fd *ast.FuncDecl) bool {
 		}
 	}
 	return s == 1 && b == 1 && fn == 1
+}
+
+// c19isEnum: a named integer type declared in the module (an enum-like scope / mode type).
+func c19isEnum(t types.Type) bool {
+	n, ok := t.(*types.Named)
+	if !ok || n.Obj().Pkg() == nil || !strings.HasPrefix(n.Obj().Pkg().Path()+"/", Mod) {
+		return false
+	}
+	b, ok := n.Underlying().(*types.Basic)
+	return ok && b.Info()&types.IsInteger != 0
 }
 
 // c19targetFields: a struct (or pointer to struct) with exactly one string and one bool field —
@@ -109,8 +120,10 @@ func c19Run(c *core.Ctx) *c19run {
 		switch {
 		case c19isString(v.Type()) && r.keyObj == nil:
 			r.keyObj = v
-		case c19isBool(v.Type()) && r.prefObj == nil:
+		case (c19isBool(v.Type()) || c19isEnum(v.Type())) && r.prefObj == nil:
+			// the key/prefix choice: a bool, or an enum-like integer type of the module
 			r.prefObj = v
+			r.prefEnum = c19isEnum(v.Type())
 		case c19targetFields(v.Type()) != nil && r.targetObj == nil && r.keyObj == nil && r.prefObj == nil:
 			// (key, prefix) travel as one parameter object: its fields play the two roles
 			tf := c19targetFields(v.Type())
